@@ -80,7 +80,7 @@ func (l *liveScreen) startPoll(sentinel rune) func() ([]NEv, bool) {
 				continue
 			}
 			n := normEv(ev)
-			if n.T == "key" && n.Key == tcell.KeyRune && n.Rune == sentinel {
+			if n.T == "key" && ((n.Key == tcell.KeyRune && n.Rune == sentinel) || (sentinel == 0x1d && n.Key == tcell.KeyCtrlRightSq)) {
 				ch <- res{out, true}
 				return
 			}
